@@ -686,3 +686,49 @@ Definition one_subsystem_apply_U (dims : list nat) (idx : nat) (U rho : list (li
         gmul (gmul (mget U a c) (gconj (mget U b e)))
              (mget rho (sa_join dims idx bi c li) (sa_join dims idx bj e lj)))))
     (seq 0 N)) (seq 0 N).
+
+(* ------------------------------------------------------------------ *)
+(* tensor(): `out = args[0].data; for arg in args[1:]: out = _data.kron(out, arg.data)`
+   and the kron kernels (kron.pyx), rectangular factors allowed *)
+Section Kron2.
+  Variable C : Type.
+  Variables c0 c1 : C.
+  Variables cadd cmul : C -> C -> C.
+  Notation mat := (mat C).
+
+  (* meaning of _data.kron(A, B) for a right factor with nrB rows, ncB columns *)
+  Definition kron2 (A B : mat) (nrB ncB : nat) : mat :=
+    fun i j => cmul (A (i / nrB) (j / ncB)) (B (i mod nrB) (j mod ncB)).
+
+  (* the loop of tensor() *)
+  Fixpoint kron_left (acc : mat) (As : list mat) (rd cd : list nat) : mat :=
+    match As, rd, cd with
+    | A :: As', r :: rd', c :: cd' => kron_left (kron2 acc A r c) As' rd' cd'
+    | _, _, _ => acc
+    end.
+  Definition tensor_data (As : list mat) (rd cd : list nat) : mat :=
+    match As, rd, cd with
+    | A :: As', _ :: rd', _ :: cd' => kron_left A As' rd' cd'
+    | _, _, _ => fun _ _ => c1
+    end.
+
+  (* right-nested Kronecker product with separate row and column dims *)
+  Fixpoint kron_rc (As : list mat) (rd cd : list nat) : mat :=
+    match As, rd, cd with
+    | A :: As', _ :: rt, _ :: ct =>
+        fun i j => cmul (A (i / prod rt) (j / prod ct))
+                        (kron_rc As' rt ct (i mod prod rt) (j mod prod ct))
+    | _, _, _ => fun _ _ => c1
+    end.
+
+  (* kron_csr: every stored entry of the left factor with every stored entry
+     of the right one:
+       col = left.col * ncols_r + right.col,  row_out = row_l * nrows_r + row_r,
+       data = left.data * right.data
+     (storage order differs from the kernel's, the entries are the same) *)
+  Definition kron_csr_entries (nrr ncr : nat) (EL ER : list (entry C)) : list (entry C) :=
+    flat_map (fun el =>
+      map (fun er => (fst (fst el) * nrr + fst (fst er),
+                      snd (fst el) * ncr + snd (fst er),
+                      cmul (snd el) (snd er))) ER) EL.
+End Kron2.
